@@ -73,8 +73,9 @@ def run_export(tid, sessions, opts, rng, directory=False):
     rec = {"tid": tid, "opts": opts, "sessions": sessions}
     tmp = tempfile.mkdtemp(prefix="verif-dom-")
     try:
-        kw = dict(use_current=opts["useCurrent"], enforce_rules=opts["enforce"], include_groups=list(opts["include"]),
-                  pool_groups=list(opts["pool"]))
+        box = [list, tuple, set][(len(sessions[0]["keys"]) + len(opts["include"]) + int(opts["enforce"])) % 3]   # any collection
+        kw = dict(use_current=opts["useCurrent"], enforce_rules=opts["enforce"], include_groups=box(opts["include"]),
+                  pool_groups=box(opts["pool"]))
         with warnings.catch_warnings():
             warnings.simplefilter("ignore")
             if directory and len(sessions) >= 2:
